@@ -618,7 +618,8 @@ pub fn pseudoprime(p: Uint) -> bool {
     }
 
     let zp = ZmodN::new(p);
-    let s = (p.low_u64() - 1).trailing_zeros();
+    // p - 1 = p_odd << s with p_odd odd (the 2-adic valuation can exceed one word).
+    let s = (p - Uint::ONE).trailing_zeros();
     let p_odd = p >> s;
     for &b in &fbase::SMALL_PRIMES {
         let mut pow = pow_mod(&zp, zp.from_int(b.into()), &p_odd);
